@@ -3,6 +3,6 @@
 SPECIFICATION Spec
 CONSTANTS
   Variant = "ok"
-  MaxP = 7
+  MaxP = 10
   Scripts <- CatThorough
 INVARIANTS NoErr InvReapOnce InvStatusTrue InvNoFgLeft InvJobsSound InvDenotation Emit
